@@ -597,6 +597,14 @@ func (fr *Frame) applyContract(c *Contract, sig *types.Signature, recvT types.Ty
 		}
 		vc.assume(tImp(fr.curReach, t))
 	}
+	for k, e := range c.TrustedEnsures {
+		t, err := env2.evalBool(e.E)
+		if err != nil {
+			vc.sess.fatalf("contract %s trusted-ensures %d: %v", c.Key, k+1, err)
+		}
+		vc.assume(tImp(fr.curReach, t))
+		vc.assumes["trusted postcondition of "+c.Key+" (assumed at call sites, not proved on its body): "+e.Text] = true
+	}
 	return res
 }
 
